@@ -179,6 +179,8 @@ Next == \/ \E t \in Tx : Admit(t, "http") \/ Recv(t)
 Spec == Init /\ [][Next]_vars
 View == [st EXCEPT !.out = {}]
 Bound == Depth = 0 \/ Len(hist) <= Depth
+(* simulation runs: print a random walk when it reaches Depth steps, then stop it *)
+WalkEmit == IF Len(hist) >= Depth THEN PrintT(<<"WALK", ToJson([steps |-> hist])>>) /\ FALSE ELSE TRUE
 
 (* invariants ***************************************************************)
 TypeOK == /\ DOMAIN st.pool \subseteq Tx /\ \A t \in DOMAIN st.pool : st.pool[t] \in Heights
